@@ -16,7 +16,9 @@ def ref(c):
 
 
 _TYPE_ALIASES = {"Int": INT, "int": INT, "Bool": BOOL, "bool": BOOL, "Float": FLOAT, "float": FLOAT,
-                 "Str": STR, "str": STR, "None": NONE, "Cls": CLS, "Exc": EXC}
+                 "Str": STR, "str": STR, "None": NONE, "Cls": CLS, "Exc": EXC,
+                 "PyVal": ("opaque", "PyVal")}      # an arbitrary python value: an int, a float, or something else (str, None, complex, ...)
+PYVAL = ("opaque", "PyVal")
 
 
 def parse_type(s) -> tuple:
